@@ -323,6 +323,240 @@ func extractDecoderCfg(repo, root string) error {
 	fmt.Fprintf(&sb, "/-- G8: a count that is within the ANNOUNCED frame size but beyond what was received does not allocate ahead of the data -/\ndef arraysGrow : Bool := %v\n", facts["G8"])
 	fmt.Fprintf(&sb, "/-- G9: decoder.read allocates an announced string / bytes length only up to readChunk; longer values grow with the bytes received -/\ndef readsGrow : Bool := %v\n", facts["G9"])
 	fmt.Fprintf(&sb, "/-- G10: the tagged-field loops (response header, request header, flexible structs) stop at the first decoder error -/\ndef tagLoopsStop : Bool := %v\n", facts["G10"])
+	{
+		emit := func(prefix, what string, chunk, init, grow string, ok bool) {
+			if !ok {
+				fmt.Fprintf(&sb, "-- %s: growth loop NOT translated (shape not recognised): a policy that never grows, so the theorems about it fail\n", what)
+				chunk, init, grow = "0", "n", "len"
+			}
+			fmt.Fprintf(&sb, "/-- %s: the constant, the capacity allocated before the data arrives, the capacity allocated when `len` slots are full -/\n", what)
+			fmt.Fprintf(&sb, "def %sChunk : Nat := %s\ndef %sInit (n : Nat) : Nat := %s\ndef %sGrow (len n : Nat) : Nat := %s\n", prefix, chunk, prefix, init, prefix, grow)
+		}
+		c1, i1, g1, ok1 := growthOfDecodeElems(dec, fs["decodeElems"], text)
+		emit("array", "protocol/decode.go decodeElems", c1, i1, g1, ok1)
+		c2, i2, g2, ok2 := growthOfRead(dec, fs["read"], text)
+		emit("read", "protocol/decode.go (*decoder).read", c2, i2, g2, ok2)
+	}
 	fmt.Fprintf(&sb, "def saslCfg : KV.Codec.SaslCfg := { negChecked := %v, grows := %v }\nend KV.Gen\n", facts["G6"], facts["G7"])
 	return os.WriteFile(filepath.Join(root, "lean", "KafkaVerif", "Gen", "DecoderCfg.lean"), []byte(sb.String()), 0o644)
+}
+
+
+// ---------------------------------------------------------------------------------------------------------------------
+// The growth loops of decodeElems (arrays) and (*decoder).read (strings / bytes), translated into Lean functions:
+//
+//	chunk          the constant arrayChunk / readChunk
+//	init n         the capacity allocated before any element / byte of the value has been received
+//	grow len n     the capacity allocated when `len` slots are full and the announced count is n
+//
+// The statements are executed symbolically over the variables `len` (a.length() / len(b)) and `n`:
+// `m = E`, `m := E`, `if C { m = E }` and the allocation call whose size argument is the result.
+
+type symEnv struct {
+	vars   map[string]string // Go variable -> Lean expression (Nat)
+	consts map[string]string
+	lenOf  []string // source texts that denote the current capacity
+}
+
+func (e *symEnv) expr(x ast.Expr, text func(ast.Node) string) (string, bool) {
+	t := text(x)
+	for _, l := range e.lenOf {
+		if t == l {
+			return "len", true
+		}
+	}
+	switch v := x.(type) {
+	case *ast.ParenExpr:
+		return e.expr(v.X, text)
+	case *ast.BasicLit:
+		if v.Kind == token.INT {
+			return v.Value, true
+		}
+	case *ast.Ident:
+		if l, ok := e.vars[v.Name]; ok {
+			return l, true
+		}
+		if l, ok := e.consts[v.Name]; ok {
+			return l, true
+		}
+	case *ast.BinaryExpr:
+		a, ok1 := e.expr(v.X, text)
+		b, ok2 := e.expr(v.Y, text)
+		if ok1 && ok2 {
+			switch v.Op {
+			case token.MUL:
+				return "(" + a + " * " + b + ")", true
+			case token.ADD:
+				return "(" + a + " + " + b + ")", true
+			}
+		}
+	}
+	return "", false
+}
+
+func (e *symEnv) cond(x ast.Expr, text func(ast.Node) string) (string, bool) {
+	b, ok := x.(*ast.BinaryExpr)
+	if !ok {
+		return "", false
+	}
+	l, ok1 := e.expr(b.X, text)
+	r, ok2 := e.expr(b.Y, text)
+	if !ok1 || !ok2 {
+		return "", false
+	}
+	switch b.Op {
+	case token.GTR:
+		return "(" + l + " > " + r + ")", true
+	case token.LSS:
+		return "(" + l + " < " + r + ")", true
+	case token.GEQ:
+		return "(" + l + " ≥ " + r + ")", true
+	case token.LEQ:
+		return "(" + l + " ≤ " + r + ")", true
+	}
+	return "", false
+}
+
+// run executes assignments to plain variables and `if C { x = E }`; it stops at the first call of one of `allocs` and returns
+// the Lean expression of that call's size argument (argument index argIx).
+func (e *symEnv) run(list []ast.Stmt, text func(ast.Node) string, allocs map[string]int) (string, bool) {
+	for _, st := range list {
+		switch s := st.(type) {
+		case *ast.AssignStmt:
+			if len(s.Lhs) == 1 && len(s.Rhs) == 1 {
+				if ce, ok := s.Rhs[0].(*ast.CallExpr); ok {
+					if id, ok := ce.Fun.(*ast.Ident); ok {
+						if ix, ok := allocs[id.Name]; ok && ix < len(ce.Args) {
+							return e.expr(ce.Args[ix], text)
+						}
+					}
+				}
+				if id, ok := s.Lhs[0].(*ast.Ident); ok {
+					if v, ok := e.expr(s.Rhs[0], text); ok {
+						e.vars[id.Name] = v
+						continue
+					}
+				}
+			}
+			return "", false
+		case *ast.IfStmt:
+			if s.Init != nil || s.Else != nil || len(s.Body.List) != 1 {
+				return "", false
+			}
+			as, ok := s.Body.List[0].(*ast.AssignStmt)
+			if !ok || len(as.Lhs) != 1 || len(as.Rhs) != 1 {
+				return "", false
+			}
+			id, ok := as.Lhs[0].(*ast.Ident)
+			c, ok2 := e.cond(s.Cond, text)
+			v, ok3 := e.expr(as.Rhs[0], text)
+			if !ok || !ok2 || !ok3 {
+				return "", false
+			}
+			old, had := e.vars[id.Name]
+			if !had {
+				return "", false
+			}
+			e.vars[id.Name] = "(if " + c + " then " + v + " else " + old + ")"
+		default:
+			return "", false
+		}
+	}
+	return "", false
+}
+
+// intConst finds `const name = <int>` in the file.
+func intConst(f *ast.File, name string) (string, bool) {
+	for _, d := range f.Decls {
+		gd, ok := d.(*ast.GenDecl)
+		if !ok || gd.Tok != token.CONST {
+			continue
+		}
+		for _, sp := range gd.Specs {
+			vs := sp.(*ast.ValueSpec)
+			for i, n := range vs.Names {
+				if n.Name == name && i < len(vs.Values) {
+					switch v := vs.Values[i].(type) {
+					case *ast.BasicLit:
+						return v.Value, true
+					case *ast.BinaryExpr: // 64 * 1024
+						a, ok1 := v.X.(*ast.BasicLit)
+						b, ok2 := v.Y.(*ast.BasicLit)
+						if ok1 && ok2 && v.Op == token.MUL {
+							return "(" + a.Value + " * " + b.Value + ")", true
+						}
+					}
+				}
+			}
+		}
+	}
+	return "", false
+}
+
+// growthOfDecodeElems: init = statements before the loop up to `a := makeArray(elemType, m)`; grow = body of `if i == a.length() {…}`.
+func growthOfDecodeElems(f *ast.File, fd *ast.FuncDecl, text func(ast.Node) string) (chunk, init, grow string, ok bool) {
+	chunk, ok = intConst(f, "arrayChunk")
+	if !ok || fd == nil || fd.Body == nil {
+		return "", "", "", false
+	}
+	e := &symEnv{vars: map[string]string{"n": "n"}, consts: map[string]string{"arrayChunk": chunk}}
+	init, ok = e.run(fd.Body.List, text, map[string]int{"makeArray": 1})
+	if !ok {
+		return "", "", "", false
+	}
+	found := false
+	ast.Inspect(fd.Body, func(x ast.Node) bool {
+		is, isIf := x.(*ast.IfStmt)
+		if !isIf || found || text(is.Cond) != "i == a.length()" {
+			return true
+		}
+		g := &symEnv{vars: map[string]string{"n": "n"}, consts: e.consts, lenOf: []string{"a.length()"}}
+		grow, found = g.run(is.Body.List, text, map[string]int{"growArray": 2})
+		return true
+	})
+	return chunk, init, grow, found
+}
+
+// growthOfRead: init = `if n <= readChunk { b := make([]byte, n) … }` else `b := make([]byte, readChunk)`; grow = the statements of
+// the loop body after the return test up to `g := make([]byte, m)`.
+func growthOfRead(f *ast.File, fd *ast.FuncDecl, text func(ast.Node) string) (chunk, init, grow string, ok bool) {
+	chunk, ok = intConst(f, "readChunk")
+	if !ok || fd == nil || fd.Body == nil {
+		return "", "", "", false
+	}
+	consts := map[string]string{"readChunk": chunk}
+	small, large := "", ""
+	var loop *ast.ForStmt
+	for _, st := range fd.Body.List {
+		switch s := st.(type) {
+		case *ast.IfStmt:
+			if text(s.Cond) == "n <= readChunk" && small == "" {
+				e := &symEnv{vars: map[string]string{"n": "n"}, consts: consts}
+				small, _ = e.run(s.Body.List, text, map[string]int{"make": 1})
+			}
+		case *ast.AssignStmt:
+			if large == "" {
+				e := &symEnv{vars: map[string]string{"n": "n"}, consts: consts}
+				large, _ = e.run([]ast.Stmt{s}, text, map[string]int{"make": 1})
+			}
+		case *ast.ForStmt:
+			loop = s
+		}
+	}
+	if small == "" || large == "" || loop == nil {
+		return "", "", "", false
+	}
+	// growth: the statements after the `if err != nil || r == n {…}` test
+	var tail []ast.Stmt
+	for i, st := range loop.Body.List {
+		if is, isIf := st.(*ast.IfStmt); isIf && strings.Contains(text(is.Cond), "r == n") {
+			tail = loop.Body.List[i+1:]
+		}
+	}
+	g := &symEnv{vars: map[string]string{"n": "n"}, consts: consts, lenOf: []string{"len(b)"}}
+	grow, ok = g.run(tail, text, map[string]int{"make": 1})
+	if !ok {
+		return "", "", "", false
+	}
+	return chunk, "(if n ≤ " + chunk + " then " + small + " else " + large + ")", grow, true
 }
